@@ -39,6 +39,19 @@ func newInterp() *exec.Interpreter {
 	return exec.NewInterpreter("verif").SetExternalLibs([]*r.Library{zjson.Export(), zfile.Export()})
 }
 
+// usedInterp: an interpreter object that has already run a (long) script before a handler is built
+// on it - what it kept from that run must play no part in the requests served afterwards
+func usedInterp() *exec.Interpreter {
+	ip := newInterp()
+	var sb strings.Builder
+	for i := 0; i < 400; i++ {
+		sb.WriteString(fmt.Sprintf("令预备变量%d = %d + 1\n", i, i))
+	}
+	sb.WriteString("输出 “预备完”\n")
+	ip.LoadScript([]rune(sb.String())).Execute(r.ElementMap{})
+	return ip
+}
+
 func main() {
 	mode := flag.String("mode", "playground", "playground | http | separate | headers")
 	g := flag.Int("g", 8, "goroutines")
@@ -62,8 +75,13 @@ func main() {
 	}
 	switch *mode {
 	case "playground":
-		h := server.NewZnPlaygroundHandler(newInterp())
+		hFresh := server.NewZnPlaygroundHandler(newInterp())
+		hUsed := server.NewZnPlaygroundHandler(usedInterp())
 		run(*g, *n, *seed, &sum, &mu, note, func(id string, rng *rand.Rand) (string, string) {
+			h := hFresh
+			if rng.Intn(2) == 0 {
+				h = hUsed
+			}
 			src := program("", id, 20+rng.Intn(200))
 			varInput := ""
 			if rng.Intn(2) == 0 {
@@ -85,7 +103,7 @@ func main() {
 		// a second handler on the same interpreter object with another entry file
 		entry2 := filepath.Join(*dir, "entry2.zn")
 		os.WriteFile(entry2, []byte("输入当前请求\n输出“二-”\n"), 0o644)
-		ip := newInterp()
+		ip := usedInterp()
 		h1 := server.NewZnHttpHandler(ip, entry)
 		h2 := server.NewZnHttpHandler(ip, entry2)
 		run(*g, *n, *seed, &sum, &mu, note, func(id string, rng *rand.Rand) (string, string) {
